@@ -257,6 +257,7 @@ func (w *World) obsRegionClean(u *Unit, o types.Object, def ast.Expr) bool {
 		})
 		return hit
 	}
+	reads := w.readFieldsOfExpr(u, def)
 	var muts []*flow.Site
 	for _, s := range u.Sites {
 		if s == D || s.Deferred {
@@ -267,6 +268,13 @@ func (w *World) obsRegionClean(u *Unit, o types.Object, def ast.Expr) bool {
 			muts = append(muts, s) // synchronisation: another goroutine's writes become visible
 		case flow.SStore:
 			if r, _ := u.C.RootVar(s.LHS); r != nil && roots[r] {
+				// a store to a struct field the definition does not read (type-based: any object's field of that
+				// name and type) leaves what it reads unchanged
+				if s.Field != nil && reads != nil && !reads[s.Field] {
+					if _, plain := ast.Unparen(s.LHS).(*ast.Ident); !plain {
+						continue
+					}
+				}
 				muts = append(muts, s)
 			}
 		case flow.SCall:
@@ -329,7 +337,33 @@ func (w *World) obsRegionClean(u *Unit, o types.Object, def ast.Expr) bool {
 		}
 		return fwd[m.Block]
 	}
-	for _, U := range flow.VarUses(u.G, info, o) {
+	// uses: reads of the local, and reads of the parameters of spliced helpers that stand for an argument mentioning it
+	uses := flow.VarUses(u.G, info, o)
+	objs := map[types.Object]bool{o: true}
+	for changed := true; changed; {
+		changed = false
+		for _, ic := range u.G.Inlined {
+			for p, arg := range ic.Subst {
+				po := info.Defs[p]
+				if po == nil || objs[po] {
+					continue
+				}
+				hit := false
+				ast.Inspect(arg, func(n ast.Node) bool {
+					if id, ok := n.(*ast.Ident); ok && objs[info.ObjectOf(id)] {
+						hit = true
+					}
+					return !hit
+				})
+				if hit {
+					objs[po] = true
+					uses = append(uses, flow.VarUses(u.G, info, po)...)
+					changed = true
+				}
+			}
+		}
+	}
+	for _, U := range uses {
 		if U.Block == D.Block && D.SameBlockBefore(U) {
 			for _, m := range muts {
 				if m.Block == D.Block && D.SameBlockBefore(m) && m.SameBlockBefore(U) {
@@ -422,4 +456,60 @@ func (w *World) implementations(iface *types.Interface, name string) []*types.Fu
 		}
 	}
 	return out
+}
+
+// readFieldsOfExpr: the struct fields selected by e and, transitively, by the module functions it calls; nil when
+// that cannot be bounded (a dynamic or interface call, a callee without source).
+func (w *World) readFieldsOfExpr(u *Unit, e ast.Expr) map[*types.Var]bool {
+	out := map[*types.Var]bool{}
+	if !w.collectReads(u.Info(), e, out, 0, map[*types.Func]bool{}) {
+		return nil
+	}
+	return out
+}
+
+func (w *World) collectReads(info *types.Info, n ast.Node, out map[*types.Var]bool, depth int, seen map[*types.Func]bool) bool {
+	ok := true
+	ast.Inspect(n, func(c ast.Node) bool {
+		if !ok {
+			return false
+		}
+		switch x := c.(type) {
+		case *ast.SelectorExpr:
+			if sel := info.Selections[x]; sel != nil && sel.Kind() == types.FieldVal {
+				if v, isVar := sel.Obj().(*types.Var); isVar {
+					out[v] = true
+				}
+			}
+		case *ast.CallExpr:
+			if tv, isT := info.Types[x.Fun]; isT && tv.IsType() {
+				return true
+			}
+			switch cal := typeutil.Callee(info, x).(type) {
+			case *types.Builtin:
+			case *types.Func:
+				if seen[cal] {
+					return true
+				}
+				seen[cal] = true
+				src := w.P.FuncOf(cal)
+				if src == nil || src.Decl.Body == nil {
+					if cal.Pkg() != nil && (purePkgs[cal.Pkg().Path()] || cal.Pkg().Path() == "fmt") {
+						return true // reads its arguments only
+					}
+					ok = false
+					return false
+				}
+				if depth > 4 || !w.collectReads(src.Pkg.TypesInfo, src.Decl.Body, out, depth+1, seen) {
+					ok = false
+					return false
+				}
+			default:
+				ok = false
+				return false
+			}
+		}
+		return true
+	})
+	return ok
 }
